@@ -41,7 +41,7 @@ def query_text(term):
     return txt, syms
 
 
-TOKEN = re.compile(r"\s*(==|\|\||<=|>=|!=|<>|[(),?=]|'(?:[^']|'')*'|[A-Za-z_§][A-Za-z_0-9§]*|\d+)")
+TOKEN = re.compile(r"\s*(==|\|\||<=|>=|!=|<>|[(),?=<>]|'(?:[^']|'')*'|[A-Za-z_§][A-Za-z_0-9§]*|\d+)")
 
 
 def tokenize(txt):
@@ -136,6 +136,11 @@ class WhereEval:
             return a != b
         if op == "LIKE":
             return like(a, b)
+        if op == "GLOB":
+            return L.fn("sql_glob", L.S, L.S, L.B)(a, b)
+        if op in ("<", "<=", ">", ">="):
+            # TEXT comparison under BINARY collation: left uninterpreted (not needed for the store's own query)
+            return L.fn("sql_cmp_" + {"<": "lt", "<=": "le", ">": "gt", ">=": "ge"}[op], L.S, L.S, L.B)(a, b)
         raise Unsupported("SQL operator %s" % op)
 
     def concat(self):
@@ -369,3 +374,38 @@ def _store_add(ip, r, a, kw, node):
 
 
 R.METHODS[("Store", "add")] = _store_add
+
+
+# ---- sqlite3.connect: the connection's transaction control is the default one iff no isolation / autocommit option is passed
+default_txn = declare_pred("default_txn", L.V, L.B)
+
+
+def _connect(ip, a, kw, node):
+    conn = ZV(L.fresh("conn"), "Conn")
+    ip.st.assume(conn.term != L.NONE)
+    ip.st.assume(L.fn("conn_path", L.V, L.V)(conn.term) == as_v(a[0]))
+    plain = len(a) == 1 and not (set(kw) & {"isolation_level", "autocommit"})
+    ip.st.assume(default_txn(conn.term) == z3.BoolVal(plain))
+    ip.st.effects = L.seq_append(ip.st.effects, L.mk_tuple([as_v(PyC("connect")), conn.term]))
+    return conn
+
+
+R.EXTERNALS["sqlite3.connect"] = R.ExtFn(_connect)
+declare_pred("conn_path", L.V, L.V)
+
+
+@spec("sql_is_ddl")
+def _sql_is_ddl(ip, args, kw):
+    """CREATE TABLE / CREATE INDEX ... IF NOT EXISTS (idempotent DDL)."""
+    txt, syms = query_text(as_str(args[0]))
+    t = re.sub(r"--[^\n]*", "", txt).strip().upper()
+    return ZB(bool(re.match(r"CREATE (TABLE|INDEX) IF NOT EXISTS", t)))
+
+
+@spec("last_effect_")
+def _last_effect2(ip, a, kw):
+    e = ip.st.effects
+    return ZV(L.nth(e, L.len_(e) - 1), "seq")
+
+
+R.INLINE_CTORS["monkeytype.db.sqlite:SQLiteStore"] = "SQLiteStore"
